@@ -74,20 +74,33 @@ CLAIMED = {
         design="3/C12",
     ),
     "C11": dict(
-        text="Proof (mapping part) / proof-partial (view part): TagAttributes/Attribute over lxml's store are modelled in Lean "
-             "(Clark keys, in-scope default namespace, per-qualified-name view cache, __resolve_accessor, _etree_key, "
-             "__getitem__/__setitem__/__delitem__/__iter__/__len__/get/__contains__, Attribute.value, _set_new_key); proved "
-             "for every state: the three accessor forms of one attribute reach the same store entry and different attributes "
-             "different entries; lookup, membership, assignment, deletion (KeyError iff missing), iteration and length are those "
-             "of a dictionary keyed by canonical names; a cached view shows and writes the dictionary value and keeps its last "
-             "value after removal through the name it is cached under (the view invariant is shown to be preserved by every "
-             "operation); c11_stale_view_exists proves that other earlier views are not told about removals - the recorded "
-             "finding. Tie to code: random operation sequences through the mapping and through held Attribute objects on five "
-             "element contexts, real results == compiled model after every step; a plain dict as property oracle.",
-        note=TB + "Partial: 'an attribute object obtained earlier stays a live view' holds for the cached object of a name "
-             "only (known findings stale-attribute-view, rename-to-alias-deletes). Elements are not re-parented during a "
-             "sequence (attribute keys after re-parenting across default-namespace scopes: finding recorded under C01/C10).",
-        technique="Lean 4 refinement theorems (store vs canonical dictionary; view-cache invariant) + differential correspondence",
+        text="Proof: TagAttributes/Attribute over lxml's store are modelled in Lean (Clark keys, in-scope default namespace, "
+             "the cache of Attribute objects per store key, __resolve_accessor, _etree_key, __reported_name, "
+             "__getitem__/__setitem__/__delitem__/__iter__/__len__/get/__contains__/__eq__, update/pop/popitem/clear/"
+             "setdefault, Attribute.value, _set_new_key). Proved for every state: the three accessor forms of one attribute "
+             "reach the same store entry and different attributes different entries; lookup, membership, assignment, update, "
+             "deletion (KeyError iff missing), iteration and length are those of a dictionary keyed by canonical names. "
+             "Proved for every reachable state (invariant Inv: the cached object of a key is an attached object of that key, "
+             "every attached object is the cached one of its key, cached keys are stored, ids unique, removed objects have a "
+             "value; holds initially, preserved by every operation): an attached attribute object shows and writes exactly the "
+             "dictionary entry of its name; an assignment through any spelling keeps it and a lookup returns it again; a "
+             "removal through any accessor that denotes the attribute detaches it with the value it showed and leaves all "
+             "other objects alone; a rename moves the dictionary entry (another spelling: no change), the object stays "
+             "attached under the new name with its value, a superseded attribute's object is detached with its value. "
+             "Equality of two collections (elements with different namespaces in scope) is proved equivalent to their "
+             "dictionaries of reported names having the same entries; comparison with a plain mapping to dictionary lookup "
+             "of every key (and to equality of entries when the keys denote different attributes). Tie to code: random "
+             "operation sequences through the mapping, node subscripts and held Attribute objects on nine element contexts, "
+             "real results == compiled model after every step; pairs of collections compared in both orders; a plain dict "
+             "and a record per held object as property oracle, checked after every step.",
+        note=TB + "Elements are not re-parented during a sequence (attribute keys after re-parenting across "
+             "default-namespace scopes: finding recorded under C01/C10). The Attribute objects that __eq__/items() create "
+             "and cache without handing them out are left out of the model (not observable). Open finding "
+             "prefixed-attribute-in-default-namespace: an attribute written with a prefix bound to the URI of the default "
+             "namespace in scope is iterated but unreachable (the theorems' hypothesis storeOk fails for that parsed "
+             "element); replayed as its own corpus case, no generated stream enters that region. Former findings "
+             "stale-attribute-view and rename-to-alias-deletes are fixed (b73c3a9) and replayed as corpus cases.",
+        technique="Lean 4 refinement theorems (store vs canonical dictionary; view-cache invariant over reachable states; equality as dictionary equivalence) + differential correspondence",
         design="3/C11",
     ),
     "C14": dict(
